@@ -24,7 +24,8 @@ CONSTANTS
     Forge64,    \* forged TO2.ProveDevice classes (C02)
     Forge22,    \* forged TO0.OwnerSign classes (C06)
     Forge32,    \* forged TO1.ProveToRV classes (C07)
-    MaxReq      \* bound on the number of exchanges (model checking only)
+    MaxReq,     \* bound on the number of exchanges (model checking only)
+    WithMutants \* BOOLEAN: the C10 mutant actions are part of Next
 
 VARIABLES
     sess,       \* [Slots -> session record]
@@ -241,6 +242,45 @@ Inject(s, t, tok, b) ==
             /\ UNCHANGED <<sess, rv, ov, nvouch, cred>>
             /\ nreq' = nreq + 1
 
+(* Mutant(s, t): a structure-aware mutation of a message of type t under the token of slot s  *)
+(* (C10).  A mutant may happen to be acceptable (it may touch an unauthenticated field only), *)
+(* so every outcome the responder has for any body class is allowed - but nothing else: no   *)
+(* crash, no hang, no unbounded allocation (those are not actions of this specification).    *)
+Mutant(s, t) ==
+    LET r == sess[s] IN
+    /\ r.proto # "none" /\ t \in ReqTypes
+    /\ IF r.live
+       THEN \E b \in Bodies : \E o \in Respond(s, r, t, b) :
+                \* the honest client has not moved; an accepted mutant is a genuine message on record
+                Apply("mutant", s, t, "mutant", [o EXCEPT !.r.cnext = r.cnext,
+                                                          !.r.sent = IF o.resp = 255 THEN o.r.sent ELSE o.r.sent \cup {t}])
+       ELSE /\ last' = Record("mutant", s, t, "own", "mutant", 255, <<>>, FALSE)
+            /\ UNCHANGED <<sess, rv, ov, nvouch, cred>>
+            /\ nreq' = nreq + 1
+
+MutantStart(s, t) ==
+    /\ sess[s].proto # "none" /\ t \in StartTypes
+    /\ \E resp \in {t + 1, 255} : last' = Record("mutant", s, t, "own", "mutant", resp, <<>>, sess[s].live)
+    /\ UNCHANGED <<sess, rv, ov, nvouch, cred>>
+    /\ nreq' = nreq + 1
+
+MutantError(s) ==
+    /\ sess[s].proto # "none"
+    /\ sess' = [sess EXCEPT ![s] = Kill(sess[s])]
+    /\ \E resp \in {0, 255} : last' = Record("mutant", s, 255, "own", "mutant", resp, <<>>, FALSE)
+    /\ UNCHANGED <<rv, ov, nvouch, cred>>
+    /\ nreq' = nreq + 1
+
+(* damage to the request line or the headers: refused by the handler; the handler may drop the *)
+(* session when it cannot frame the body                                                       *)
+MutantHttp(s, t) ==
+    /\ sess[s].proto # "none"
+    /\ \E kill \in (IF t \in StartTypes THEN {FALSE} ELSE BOOLEAN) :
+         /\ sess' = IF kill THEN [sess EXCEPT ![s] = Kill(sess[s])] ELSE sess
+         /\ last' = Record("mutant", s, t, "own", "http", 255, <<>>, IF kill THEN FALSE ELSE sess[s].live)
+    /\ UNCHANGED <<rv, ov, nvouch, cred>>
+    /\ nreq' = nreq + 1
+
 (* A response type sent as a request is answered with an empty message. *)
 InjectRespType(s, t, tok) ==
     /\ sess[s].proto # "none" /\ t \in PlainRespTypes /\ tok \in Toks
@@ -289,6 +329,10 @@ Next ==
     \/ \E s \in Slots, a \in Forge64 \cup Forge22 \cup Forge32 : Mutated(s, a)
     \/ \E s \in Slots, t \in ReqTypes, tok \in Toks, b \in Bodies : Inject(s, t, tok, b)
     \/ \E s \in Slots, t \in PlainRespTypes, tok \in Toks : InjectRespType(s, t, tok)
+    \/ (WithMutants /\ \E s \in Slots, t \in ReqTypes : Mutant(s, t))
+    \/ (WithMutants /\ \E s \in Slots, t \in StartTypes : MutantStart(s, t))
+    \/ (WithMutants /\ \E s \in Slots : MutantError(s))
+    \/ (WithMutants /\ \E s \in Slots, t \in ReqTypes \cup StartTypes : MutantHttp(s, t))
     \/ \E s \in Slots, t \in StartTypes, b \in {"replay", "garbage"} : OrphanStart(s, t, b)
     \/ \E s \in Slots, tok \in Toks : ErrorMsg(s, tok)
     \/ \E d \in Devs : Expire(d)
@@ -305,7 +349,7 @@ TypeOK ==
     /\ \A s \in Slots : sess[s].proto \in Protos \cup {"none"} /\ sess[s].mod \in 0..AllDone
     /\ \A d \in Devs : rv[d] \in {"none", "reg", "expired"} /\ ov[d] \in {"orig", "replaced"}
 
-IsReq == last.kind \in {"start", "honest", "forged", "inject", "orphan", "errmsg"}
+IsReq == last.kind \in {"start", "honest", "forged", "inject", "orphan", "errmsg", "mutant"}
 
 FxKinds == IF IsReq THEN {last.fx[i].k : i \in 1..Len(last.fx)} ELSE {}
 
@@ -328,7 +372,7 @@ NoTokenNoService ==
     IsReq /\ last.kind \in {"inject", "errmsg"} /\ last.tok \in {"none", "bad"} => last.resp \in {0, 255} /\ last.fx = <<>>
 
 (* C08: after a protocol's final message or any error the token is dead. *)
-FinalKills == IsReq /\ last.kind \in {"honest", "inject", "forged"} /\ last.tok = "own" /\ last.resp \in {13, 23, 33, 71, 255} => ~last.live
+FinalKills == IsReq /\ last.kind \in {"honest", "inject", "forged", "mutant"} /\ last.b # "http" /\ last.t \notin StartTypes /\ last.tok = "own" /\ last.resp \in {13, 23, 33, 71, 255} => ~last.live
 
 (* C02: SetupDevice and everything after it only in a proven session. *)
 EffectsNeedProof ==
@@ -343,7 +387,7 @@ ForgedRefused == IsReq /\ last.kind = "forged" => last.resp = 255 /\ last.fx = <
 
 (* C07: a redirect is released only while the registration is valid. *)
 RedirectNeedsRegistration ==
-    IsReq /\ last.resp = 33 => rv[sess[last.s].dev] = "reg" /\ last.b = "honest"
+    IsReq /\ last.resp = 33 => rv[sess[last.s].dev] = "reg" /\ last.b \in {"honest", "mutant"}
 
 (* Dead sessions stay dead and do not change (action property). *)
 DeadStaysDead ==
@@ -352,9 +396,9 @@ DeadStaysDead ==
 
 (* Stores change only through their protocol's accepting step (action property). *)
 StoresChangeOnlyByProtocol ==
-    [][ /\ (ov' # ov => last'.kind \in {"honest", "inject"} /\ last'.t = 70 /\ last'.resp = 71)
+    [][ /\ (ov' # ov => last'.kind \in {"honest", "inject", "mutant"} /\ last'.t = 70 /\ last'.resp = 71)
         /\ (nvouch' # nvouch => last'.t = 12 /\ last'.resp = 13)
-        /\ (\E d \in Devs : rv'[d] = "reg" /\ rv[d] # "reg") => (last'.t = 22 /\ last'.resp = 23 /\ last'.b = "honest")
+        /\ (\E d \in Devs : rv'[d] = "reg" /\ rv[d] # "reg") => (last'.t = 22 /\ last'.resp = 23 /\ last'.b \in {"honest", "mutant"})
       ]_vars
 
 =============================================================================
